@@ -1038,15 +1038,74 @@ class SGen:
         self.feats.add("literal:promoted")
         return extra_pre + [pre[0], pre[1], stmt]
 
+    def gen_nested_last_hit(self, env):
+        """Depth-3 template (outer loop / inner loop with a literal or tensor bound / if):
+               h = x * 0.0; a = x * c
+               for i in range(n):
+                   cand = x * Cast(i + 1)
+                   for j in range(K):
+                       if ReduceSum(cand) <cmp> Cast(j + 1) * lim:
+                           h = cand + Cast(j)
+                   a = a + h
+           h is assigned only under a condition inside the INNER loop, read only AFTER the inner loop, and dead after the outer loop: whether
+           the outer Loop carries h is decided by the may-/must-assign treatment of the inner loop in the liveness / exposed-uses analysis."""
+        fl = [n for n, v in env.items() if isinstance(v, np.ndarray) and v.dtype in (np.float32, np.float64) and n not in self.frozen
+              and not n.startswith("tmp") and v.size <= 64]
+        if not fl or any(n in env or n in self.frozen for n in ("i", "j", "cand")):
+            return None
+        x = self.pick(fl)
+        dt = env[x].dtype
+        fresh = [v for v in VARS if v not in env and v not in self.frozen]
+        if len(fresh) < 2:
+            return None
+        h, a = fresh[0], fresh[1]
+        to = ONNX_ENUM[NAME_OF[dt]]
+        self.uses_op = True
+        pre = [Assign([h], Bin("*", Var(x), Lit(0.0))), Assign([a], Bin("*", Var(x), Lit(self.pick([0.0, 1.0, -1.0]))))]
+        scal = [n for n, v in env.items() if isinstance(v, np.ndarray) and v.dtype == np.int64 and v.ndim == 0 and 2 <= int(v) <= 4]
+        obound = Var(self.pick(scal)) if scal and self.chance(5) else Lit(self.pick([2, 3, 4]))
+        ibound = Lit(self.pick([1, 2, 2, 3]))
+        cand = Assign(["cand"], Bin("*", Var(x), Call("Cast", [Bin("+", Var("i"), Lit(1))], {"to": to})))
+        # the threshold is placed between the sums that `cand` takes over the outer iterations, so that the condition flips on the way
+        sx = float(np.sum(env[x].astype(np.float64)))
+        n_out = int(env[obound.name]) if isinstance(obound, Var) else int(obound.value)
+        mid = sx * (1 + n_out) / 2.0
+        lim = float(np.float32(mid if np.isfinite(mid) else 1.0)) if self.chance(7) else float(self.pick([0.0, 1.0, -2.0, 4.0]))
+        cmp_ = "<" if sx >= 0 else ">"
+        if self.chance(3):
+            cmp_ = self.pick(["<", ">"])
+        cond = Bin(cmp_, Call("ReduceSum", [Var("cand")], {"keepdims": 0}), Bin("*", Call("Cast", [Bin("+", Var("j"), Lit(1))], {"to": to}), Lit(lim)))
+        inner = For("j", ibound, [If(cond, [Assign([h], Bin("+", Var("cand"), Call("Cast", [Var("j")], {"to": to})))], [])])
+        post = Assign([a], Bin("+", Var(a), Var(h)))
+        outer = For("i", obound, [cand, inner, post])
+        try:
+            it = self.interp()
+            with np.errstate(all="ignore"):
+                for st_ in pre:
+                    it.stmt(st_, env)
+                it.stmt(outer, env)
+        except (InterpError, KeyError, ValueError, TypeError, IndexError):
+            return None
+        if not isinstance(env.get(a), np.ndarray) or not np.all(np.isfinite(env[a])):
+            return None
+        for n in ("i", "j", "cand", h):  # h is dead after the loop nest by construction
+            env.pop(n, None)
+        self.feats |= {"for", "nested", "nested:depth3", "nested:conditional_assign_in_inner_loop", "literal:promoted", "loop:uses_iter"}
+        return pre + [outer]
+
     def gen_compound(self, env, must_preserve=(), only_existing=False):
         """Generate a compound statement on a copy of env; commit only on success, and only names that Python AND the
         converter both keep in scope afterwards (pre-existing names, names assigned on every path)."""
         k = self.pick(["if", "if", "for", "while"])
+        if self.depth == 0 and not only_existing and self.chance(1):
+            k = "nest3"
         saved = set(self.frozen)
         work = dict(env)
         feats_before = set(self.feats)
         try:
-            if k == "if":
+            if k == "nest3":
+                r = self.gen_nested_last_hit(work)
+            elif k == "if":
                 r = self.gen_if(work, only_existing)
             elif k == "for":
                 r = self.gen_for(work)
@@ -1059,7 +1118,7 @@ class SGen:
         if r is None:
             self.feats = feats_before
             return None
-        keep_new = ({"cnt", "go"} | {t for st_ in r if isinstance(st_, Assign) for t in st_.targets}) if isinstance(r, list) else set()
+        keep_new = ({"cnt", "go"} | {t for st_ in r if isinstance(st_, Assign) for t in st_.targets if t in work}) if isinstance(r, list) else set()
         if isinstance(r, If):
             keep_new = _assigned_on_all_paths(r)
         for n in list(work):
